@@ -1,79 +1,119 @@
 ----------------------------- MODULE DurParse ------------------------------
-(* C08 pass M (i): design spec of influxql.ParseDuration, transcribed from parser.go.
+(* C08 pass M (i): design spec of influxql.ParseDuration, transcribed from parser.go
+   (the checked algorithm of commit 7063cd7).
 
-     isNegative := leading '-'
+     var mag uint64;  limit := uint64(MaxInt64);  if leading '-' { isNegative = true; limit++ }
      for each component  <digits><unit>:
-         n := strconv.ParseInt(digits)          -- 0 <= n <= MaxInt64, else ErrInvalidDuration
-         d += time.Duration(n) * unit           -- int64 multiplication and addition, both wrap
-     if d < 0 && !isNegative { error "overflowed duration" }
-     if isNegative { d = -d }                   -- int64 negation wraps (-MinInt64 = MinInt64)
+         n := strconv.ParseUint(digits)            -- 0 <= n <= MaxUint64, else ErrInvalidDuration
+         if n > (limit-mag)/uint64(mult) { return error "overflowed duration" }
+         mag += n * uint64(mult)                   -- uint64 arithmetic (written with WrapU)
+     if isNegative { return -time.Duration(mag) }  -- uint64 -> int64 conversion and int64 negation wrap
+     return time.Duration(mag)
 
-   The property part is the mathematical sum `Sum` and `Fits64`.  `Exact` is what C08
-   demands; it is violated by this design (known defect).  `OnlyKnown` says that every
-   failure of the design has one of the two named shapes, `RejectsOnlyUnfit` that the
-   design never rejects a total that fits.                                           *)
+   The property part is the mathematical sum `Sum` of ALL written components and `Fits64`.
+   After the error return the model keeps reading the remaining components into `exact`
+   (variable `failed` remembers the error), so the invariants speak about the whole spelling.
+
+   Correct = Exact /\ Complete /\ RejectsUnfit /\ NoNamedShape must hold.  It is proved for ANY
+   number of components by induction (Apalache, three one-step queries):
+       Init => Inv              --init=Init    --inv=Inv            --length=0
+       Inv /\ Next => Inv'      --init=IndInit --inv=InvAndCorrect  --length=1
+       Inv => Correct           (state 0 of the same run)
+   and, in the thorough tier, also checked directly from Init for 1..2 components
+   (--cinit=CInit2 --inv=Correct --length=3, ~30 s).  The direct check for 1..3 components
+   (--cinit=CInit --inv=Correct --length=4) passes as well but takes 4.5-15 min depending on the
+   load of the machine (non-linear), so it is not part of a tier.
+   With Weak = TRUE the per-component test is dropped (the product simply wraps): a deliberately
+   broken variant on which `Exact` must be VIOLATED - the vacuity control of this pass; its
+   counterexamples are additional aimed cases for the real code.                            *)
 EXTENDS DurCommon, Sequences
 
-CONSTANT
+CONSTANTS
   \* @type: Int;
-  MaxComps
+  MaxComps,
+  \* @type: Bool;
+  Weak
 
 VARIABLES
   \* @type: Bool;
   neg,
   \* @type: Seq({n: Int, m: Int});
-  comps,
+  comps,            \* log of the components read (for counterexamples only)
   \* @type: Int;
-  d,
+  ncomps,           \* number of components read
   \* @type: Int;
   mag,
+  \* @type: Int;
+  exact,
+  \* @type: Bool;
+  failed,
   \* @type: Bool;
   done,
-  \* @type: Bool;
-  err,
   \* @type: Int;
   result
 
-CInit == MaxComps = 3
+CInit     == MaxComps = 3 /\ Weak = FALSE
+CInit2    == MaxComps = 2 /\ Weak = FALSE
+CInitWeak == MaxComps = 3 /\ Weak = TRUE
 
 Init == /\ neg \in BOOLEAN
-        /\ comps = <<>> /\ d = 0 /\ mag = 0
-        /\ done = FALSE /\ err = FALSE /\ result = 0
+        /\ comps = <<>> /\ ncomps = 0 /\ mag = 0 /\ exact = 0
+        /\ failed = FALSE /\ done = FALSE /\ result = 0
 
-\* one pass through the parsing loop
-Comp == /\ ~done /\ Len(comps) < MaxComps
-        /\ \E n \in 0..MaxI64 : \E m \in Mults :
-              /\ d' = Wrap(d + Wrap(n * m))
-              /\ mag' = mag + n * m
-              /\ comps' = Append(comps, [n |-> n, m |-> m])
-        /\ UNCHANGED <<neg, done, err, result>>
+Limit == IF neg THEN MaxI64 + 1 ELSE MaxI64
 
-\* after the loop: the overflow test and the sign
-Finish == /\ ~done /\ Len(comps) >= 1
+\* one pass through the parsing loop; numerals of up to 65 bits are written, ParseUint refuses > MaxUint64
+Comp == /\ ~done /\ ncomps < MaxComps
+        /\ \E n \in 0..(2 * TwoTo64) : \E m \in Mults :
+              /\ comps' = Append(comps, [n |-> n, m |-> m]) /\ ncomps' = ncomps + 1
+              /\ exact' = exact + n * m
+              /\ IF failed THEN UNCHANGED <<mag, failed>>                       \* already returned an error
+                 ELSE IF n > MaxU64 THEN failed' = TRUE /\ UNCHANGED mag        \* ParseUint: value out of range
+                 ELSE IF ~Weak /\ n > (Limit - mag) \div m THEN failed' = TRUE /\ UNCHANGED mag
+                 ELSE mag' = WrapU(mag + WrapU(n * m)) /\ UNCHANGED failed
+        /\ UNCHANGED <<neg, done, result>>
+
+\* after the loop: conversion and sign
+Finish == /\ ~done /\ ncomps >= 1
           /\ done' = TRUE
-          /\ err' = (d < 0 /\ ~neg)
-          /\ result' = IF d < 0 /\ ~neg THEN 0 ELSE IF neg THEN Wrap(-d) ELSE d
-          /\ UNCHANGED <<neg, comps, d, mag>>
+          /\ result' = IF failed THEN 0 ELSE IF neg THEN Wrap(-Wrap(mag)) ELSE Wrap(mag)
+          /\ UNCHANGED <<neg, comps, ncomps, mag, exact, failed>>
 
 Next == Comp \/ Finish
 
 \* ---- property part -------------------------------------------------------------------
-Sum == IF neg THEN -mag ELSE mag             \* the sum of the written components, signed
+Sum == IF neg THEN -exact ELSE exact         \* the sum of the written components, signed
 
-Exact == (done /\ ~err) => result = Sum      \* C08: accepted => exact   (FAILS: known defect)
-RejectsUnfit == (done /\ ~Fits64(Sum)) => err
+Exact        == (done /\ ~failed) => result = Sum          \* C08: accepted => exact
+Complete     == (done /\ Fits64(Sum)) => ~failed           \* a total that fits is accepted
+RejectsUnfit == (done /\ ~Fits64(Sum)) => failed           \* a total that does not fit is an error
 
-\* named deviations: the only ways in which this design breaks C08
+\* the two shapes in which the previous algorithm (int64 wrap + `d < 0 && !isNegative`) broke C08.
+\* They are no longer known findings; the judge uses the same predicates only to NAME such a
+\* failure should it ever return.  The design cannot produce them:
 Dev_WrapToNonNegative ==
-  done /\ ~err /\ ~neg /\ ~Fits64(Sum) /\ result = Wrap(Sum) /\ result >= 0
+  done /\ ~failed /\ ~neg /\ ~Fits64(Sum) /\ result = Wrap(Sum) /\ result >= 0
 Dev_WrapNegativeUnchecked ==
-  done /\ ~err /\ neg /\ ~Fits64(Sum) /\ result = Wrap(Sum)
+  done /\ ~failed /\ neg /\ ~Fits64(Sum) /\ result = Wrap(Sum)
+NoNamedShape == ~Dev_WrapToNonNegative /\ ~Dev_WrapNegativeUnchecked
 
-OnlyKnown == (done /\ ~err) => (result = Sum \/ Dev_WrapToNonNegative \/ Dev_WrapNegativeUnchecked)
-RejectsOnlyUnfit == (done /\ err) => ~Fits64(Sum)
-Safe == OnlyKnown /\ RejectsOnlyUnfit
+Correct == Exact /\ Complete /\ RejectsUnfit /\ NoNamedShape
 
-\* distinct counterexamples are told apart by sign and number of components
+\* ---- inductive invariant (Weak = FALSE) ------------------------------------------------
+\* as long as no error was returned the accumulator IS the exact sum and is within the limit;
+\* once an error was returned the exact sum is beyond the limit (and only grows)
+Inv == /\ 0 <= mag /\ mag <= MaxU64 /\ 0 <= exact /\ 0 <= ncomps
+       /\ ~failed => (mag = exact /\ mag <= Limit)
+       /\ failed => exact > Limit
+       /\ (done /\ ~failed) => result = Sum
+InvAndCorrect == Inv /\ Correct
+\* an arbitrary state satisfying Inv (comps is only a log: any value will do)
+IndInit == /\ neg \in BOOLEAN /\ failed \in BOOLEAN /\ done \in BOOLEAN
+           /\ comps = <<>> /\ ncomps \in 0..MaxComps
+           /\ mag \in 0..MaxU64 /\ exact \in 0..(TwoTo64 * TwoTo64) /\ result \in MinI64..MaxI64
+           /\ Inv
+
+\* distinct counterexamples (weak variant) are told apart by sign and number of components
 \* @type: <<Bool, Int>>;
-CexView == <<neg, Len(comps)>>
+CexView == <<neg, ncomps>>
 =============================================================================
